@@ -96,6 +96,7 @@ fn real_main(args: &[String], scratch: &str) -> i32 {
                 "C14" => conc::c14(&mut ctx),
                 "C07sched" => conc::c07_sched(&mut ctx),
                 "C10sched" => conc::c10_sched(&mut ctx),
+                "C10many" => conc::c10_many(&mut ctx),
                 "C05cfg" => conc::c05_lattice(&mut ctx),
                 "C10cfg" => conc::c10_configs(&mut ctx),
                 "C07cfg" => files::c07_configs(&mut ctx),
